@@ -85,6 +85,8 @@ impl Drop for Slot {
 }
 
 pub struct Env {
+    /// weak handles of actors created by client ops (the scenario runner's reaper stops them if clients get stuck)
+    pub reaper: std::sync::Mutex<Vec<(u32, Box<dyn DynWeak>)>>,
     pub burst_next: std::sync::Mutex<std::collections::HashMap<u16, u32>>,
     pub prog: Program,
     pub next_client: AtomicU16,
@@ -96,6 +98,7 @@ impl Env {
     pub fn new(prog: Program) -> Arc<Env> {
         let n = prog.clients.len() as u16;
         Arc::new(Env {
+            reaper: Default::default(),
             burst_next: Default::default(),
             prog,
             next_client: AtomicU16::new(n),
@@ -619,6 +622,9 @@ async fn exec_op(env: &Arc<Env>, c: u16, i: u16, op: Op, slots: &mut Vec<Slot>) 
             let d = env.prog.actors[decl as usize].clone();
             begin(c, i, OpK::SpawnActor, Hk::None, Path::NA, d.tag, 0, 0, decl as u64);
             let sp = spawn_decl(&d);
+            if let Some(a) = &sp.addr {
+                env.reaper.lock().unwrap_or_else(|e| e.into_inner()).push((d.tag, a.downgrade()));
+            }
             let mut first = u16::MAX;
             let obj = sp.obj;
             if let Some(o) = sp.owning {
@@ -641,6 +647,7 @@ async fn exec_op(env: &Arc<Env>, c: u16, i: u16, op: Op, slots: &mut Vec<Slot>) 
             let (obj, r) = spawn_register(&d).await;
             let res = match r {
                 Ok((me, prev)) => {
+                    env.reaper.lock().unwrap_or_else(|e| e.into_inner()).push((d.tag, me.downgrade()));
                     let s = push(slots, Slot::mk(H::Addr(me), d.tag, c));
                     let ps = push_prev(slots, prev, d.k, c);
                     log::log(K::Note(format!("spawn_register obj {obj} slot {s}")));
@@ -698,6 +705,7 @@ async fn exec_op(env: &Arc<Env>, c: u16, i: u16, op: Op, slots: &mut Vec<Slot>) 
                     Res::NoneVal
                 }
                 Some(Some(a)) => {
+                    env.reaper.lock().unwrap_or_else(|e| e.into_inner()).push((tag, a.downgrade()));
                     let s = push(slots, Slot::mk(H::Addr(a), tag, c));
                     Res::Handle { slot: s, some: true }
                 }
